@@ -11,6 +11,7 @@ preserves the combination; afterwards Domain().types is {'object'}, domains pars
 an untyped domain parsed later has only 'object'.
 """
 import os
+from fractions import Fraction
 import pathlib
 import shutil
 from itertools import permutations, product, combinations
@@ -24,7 +25,7 @@ from .c07 import dom_digest, default_types_digest, OTHER_T, OTHER_U
 
 ID = "C17"
 RULE = ("domain elements: predicates p,q,r; function f; constant k; actions a1 (uses p,k), a2 (uses q,f,r); problem "
-        "elements: objects o1,o2 (plus u0 - object, first in the first agent's file); facts (p o1), (p o2), (q o1 o2), (= (f) 3); goals (p o2), (r); agents 2 (quick) / 3 (thorough: "
+        "elements: objects o1,o2 (plus u0 - object, first in the first agent's file); facts (p o1), (p o2), (q o1 o2), (= (f) 1234567.25); types t1 > t2 > t3 > t4; goals (p o2), (r); agents 2 (quick) / 3 (thorough: "
         "domain splits only); every assignment of each element to a non-empty subset of agents that keeps each file "
         "self-contained; every permutation of the discovered files; add_dummy_actions on/off. one case = one domain split "
         "(with all orders, both dummy settings, and a rotating problem split). non-trivial = a split in which some "
@@ -34,7 +35,7 @@ ASSUMPTIONS = ["elements that occur in several files have identical definitions 
 CASE_TIMEOUT = 300
 
 REQ = "(:requirements :typing :negative-preconditions :numeric-fluents)"
-TYPES = "(:types t1 - object t2 - t1)"
+TYPES = "(:types t1 - object t2 - t1 t3 - t2 t4 - t3)"  # four levels below object
 PRED = {"p": "(p ?a - t1)", "q": "(q ?a - t1 ?b - t2)", "r": "(r)"}
 FUNC = {"f": "(f)"}
 CONST = {"k": "k - t1"}
@@ -45,7 +46,7 @@ ACT = {
            ":effect (and (r) (decrease (f) 1)))", {"q", "f", "r"}),
 }
 OBJ = {"o1": "t1", "o2": "t2"}
-FACTS = {"(p o1)": {"o1", "p"}, "(p o2)": {"o2", "p"}, "(q o1 o2)": {"o1", "o2", "q"}, "(= (f) 3)": {"f"}}
+FACTS = {"(p o1)": {"o1", "p"}, "(p o2)": {"o2", "p"}, "(q o1 o2)": {"o1", "o2", "q"}, "(= (f) 1234567.25)": {"f"}}  # more than six significant digits
 GOALS = {"(p o2)": {"o2", "p"}, "(r)": {"r"}}
 
 
@@ -200,13 +201,13 @@ def check_case(case):
     earlier_t, earlier_u = parse_domain(OTHER_T), parse_domain(OTHER_U)
     dig_t, dig_u, defaults = dom_digest(earlier_t), dom_digest(earlier_u), default_types_digest()
     want_vocab = {
-        "types": ["object", "t1", "t2"],
+        "types": ["object", "t1", "t2", "t3", "t4"],
         "constants": {"k": "t1"},
         "predicates": {"p": [["?a", "t1"]], "q": [["?a", "t1"], ["?b", "t2"]], "r": []},
         "functions": {"f": []},
         "actions": {"a1": [["?x", "t1"]], "a2": [["?x", "t1"], ["?y", "t2"]]},
     }
-    want_problem = {"objects": dict(OBJ, u0="object"), "atoms": {("p", "o1"), ("p", "o2"), ("q", "o1", "o2")}, "fluents": {("f",): 3},
+    want_problem = {"objects": dict(OBJ, u0="object"), "atoms": {("p", "o1"), ("p", "o2"), ("q", "o1", "o2")}, "fluents": {("f",): Fraction("1234567.25")},
                     "goals": {("p", "o2"), ("r",)}}
     first_vocab = None
     for perm in permutations(range(n)):
